@@ -163,6 +163,69 @@ def cmdPhrases (src : List Char) : String :=
   | .ok forest => "P" ++ String.join ((forest.flatMap (phrasesOf .EOF)).map fun p => " " ++ hexEncode p)
   | .error _ => "P"
 
+/-- `cli`: the model of the binary's result loop applied to the model's query results. -/
+def cmdCli (tbl : DbTable) (src : List Char) (exact : Bool) : String :=
+  let db : Db := fun phrase =>
+    match tbl.find? (fun e => e.1 == phrase) with
+    | some (_, some f) => .found f
+    | some (_, none) => .nothing
+    | none => .error
+  match Eval.query { db := db, describe := false, debug := true } src with
+  | .error e => s!"O TREEERR {repr e}"
+  | .ok (rs, _) =>
+    let items := (Cli.render exact rs).map fun it => match it with
+      | .line t => "L" ++ hexEncode t
+      | .diagnostic k s _ => s!"D{k.name}:{s}"
+      | .other w => s!"?{w}"
+    "O " ++ (if items.isEmpty then "-" else "|".intercalate items) ++ " X0"
+
+/-! ### `cbor` -/
+def bytesHex (b : List Nat) : String :=
+  if b.isEmpty then "-" else String.ofList (b.flatMap fun x => [hexDigit (x / 16), hexDigit (x % 16)])
+
+def hexToBytes (s : String) : List Nat := (hexDecodeBytes s).toList.map (·.toNat)
+
+def compoundEq (a b : Compound) : Bool :=
+  a.length == b.length && (a.zip b).all (fun (x, y) => x.1 == y.1 && x.2.power == y.2.power && x.2.pfx == y.2.pfx)
+
+def cmdCbor (args : List String) : String :=
+  match args with
+  | ["rat", v] =>
+    let r := parseRat v
+    let bytes := Cbor.encode (Cbor.encRat r)
+    let rt := match (Cbor.decodeAll bytes).bind Cbor.decRat with
+      | some r' => r' == r
+      | none => false
+    let js := Cbor.jsonRat r
+    s!"B {bytesHex bytes} {if rt then "rt" else "RTFAIL"} {hexEncode js} rt"
+  | ["unit", u] =>
+    let c := parseUnitCanon u
+    let bytes := Cbor.encode (Cbor.encCompound c)
+    let rt := match (Cbor.decodeAll bytes).bind Cbor.decCompound with
+      | some c' => compoundEq c c'
+      | none => false
+    s!"B {bytesHex bytes} {if rt then "rt" else "RTFAIL"}"
+  | ["derat", h] =>
+    match (Cbor.decodeAll (hexToBytes h)).bind Cbor.decRat with
+    | some r => s!"B OK {ratStr r}"
+    | none => "B ERR"
+  | ["deunit", h] =>
+    match (Cbor.decodeAll (hexToBytes h)).bind Cbor.decCompound with
+    | some c => s!"B OK {unitCanon c}"
+    | none => "B ERR"
+  | ["const", src, toks, desc, v, u] =>
+    let c : Cbor.Constant := {
+      source := if src == "-" then none else some src.toNat!,
+      tokens := if toks == "-" then [] else (toks.splitOn ";").map hexDecode,
+      description := hexDecode desc, value := parseRat v, unit := parseUnitCanon u }
+    let bytes := Cbor.encode (Cbor.encConstant c)
+    let rt := match (Cbor.decodeAll bytes).bind Cbor.decConstant with
+      | some c' => c'.source == c.source && c'.tokens == c.tokens && c'.description == c.description
+          && c'.value == c.value && compoundEq c'.unit c.unit
+      | none => false
+    s!"B {bytesHex bytes} {if rt then "rt" else "RTFAIL"}"
+  | _ => "B ?"
+
 def cmdUnit (src : List Char) : String :=
   match Eval.compoundFromStr src with
   | .error e => s!"C TREEERR {repr e}"
@@ -362,6 +425,26 @@ def dispatch (tbl : DbTable) (line : String) : String :=
   | "expr" :: toks => cmdExpr toks
   | "qexpr" :: toks => cmdQExpr toks
   | ["si", v, u] => cmdSi v u
+  | ["disp", n, d, limit, explimit, c] =>
+    let r : Rat := (parseInt n : Rat) / (parseInt d : Rat)
+    "S " ++ String.ofList (Display.fmt { limit := limit.toNat!, exponentLimit := explimit.toNat!, showContinuation := c == "1" } r)
+  | ["readback", h, n, d] =>
+    "V " ++ Spec.Printed.verdict ((parseInt n : Rat) / (parseInt d : Rat)) (hexDecode h)
+  | ["unitdisp", u, pl] =>
+    let c := parseUnitCanon u
+    s!"P {hexEncode (UnitDisplay.compound c (pl == "1"))} {if Compound.hasNumerator c then 1 else 0}"
+  | ["clival", mode, v, u] =>
+    "O " ++ hexEncode (Cli.renderValue (mode == "exact") { value := parseRat v, unit := parseUnitCanon u })
+  | ["recover", prior, cps] =>
+    match Recovery.prior prior with
+    | none => "M ?"
+    | some d0 =>
+      let crashes : List Recovery.Crash := (cps.splitOn ",").map fun c => if c == "full" then none else some c.toNat!
+      let (d, trace) := crashes.foldl (fun (acc : Recovery.Dir × List String) cp =>
+        let d' := (Recovery.run acc.1 cp).dir
+        (d', acc.2 ++ [d'.md.show])) (d0, [])
+      let fin := Recovery.run d none
+      s!"M {",".intercalate trace} F {fin.dir.md.show} {if fin.answers == some true then "ANSWERS-FRESH" else "ANSWERS-DIFFER"}"
   | ["vocab"] => cmdVocab
   | ["word", h] => cmdWord (hexDecode h)
   | ["tree", h] => cmdTree (hexDecode h) false ++ "\t" ++ specTree (hexDecode h)
@@ -370,6 +453,8 @@ def dispatch (tbl : DbTable) (line : String) : String :=
   | ["query", h] => cmdQuery tbl (hexDecode h) false
   | ["query", h, "describe"] => cmdQuery tbl (hexDecode h) true
   | ["unit", h] => cmdUnit (hexDecode h)
+  | "cbor" :: args => cmdCbor args
+  | ["cli", h, mode] => cmdCli tbl (hexDecode h) (mode == "exact")
   | ["unitw", h] => cmdUnitw (hexDecode h)
   | ["factor", a, b, v] => cmdFactor a b v
   | ["mul", a, b, n, l, r] => cmdMul a b n l r
